@@ -98,6 +98,10 @@ package sourcewalk
 
 // Query service: <Name>Query with Get, List and Events (all GET) for this entity; Get/Events
 // and List have as many path parameters as key request properties.
+//@ spec func keyDef(k *sourcedef_j5pb.EntityKey) *schema_j5pb.KeyField = as(*schema_j5pb.Field_Key, k.Def.Schema.Type).Key
+//@ spec func isPK(k *sourcedef_j5pb.EntityKey) bool = typeis(k.Def.Schema.Type, *schema_j5pb.Field_Key) && keyDef(k) != nil && keyDef(k).Entity != nil
+//@   | && typeis(keyDef(k).Entity.Type, *schema_j5pb.EntityKey_PrimaryKey) && as(*schema_j5pb.EntityKey_PrimaryKey, keyDef(k).Entity.Type).PrimaryKey
+//@ spec func allPK(ent *entityNode) bool = forall j int {ent.Schema.Keys[j]} :: 0 <= j && j < len(ent.Schema.Keys) ==> isPK(ent.Schema.Keys[j])
 //@ func (*entityNode).acceptQuery
 //@   requires ent != nil && ent.Schema != nil && visitor != nil
 //@   requires forall i int {ent.Schema.Keys[i]} :: 0 <= i && i < len(ent.Schema.Keys) ==> ent.Schema.Keys[i] != nil && ent.Schema.Keys[i].Def != nil && ent.Schema.Keys[i].Def.Schema != nil
@@ -105,8 +109,15 @@ package sourcewalk
 //@   assert at newServiceRef#0 entity: arg1.Options != nil && typeis(arg1.Options.Type, *ext_j5pb.ServiceOptions_StateQuery_) && as(*ext_j5pb.ServiceOptions_StateQuery_, arg1.Options.Type).StateQuery.Entity == ent.name
 //@   assert at newServiceRef#0 methods: getMethod.Name == camel(ent.name) + "Get" && listMethod.Name == camel(ent.name) + "List" && eventsMethod.Name == camel(ent.name) + "Events"
 //@   |   && getMethod.HttpMethod == client_j5pb.HTTPMethod_GET && listMethod.HttpMethod == client_j5pb.HTTPMethod_GET && eventsMethod.HttpMethod == client_j5pb.HTTPMethod_GET
-// (the element-wise correspondence ":name" <-> request property over four appended slices gives
-// queries no installed solver decides in 120 s; the counts are what is checked)
+// (counts always; element-wise correspondence ":name" <-> request property <-> key i when every key is a
+// primary key field, which needs the four appended slices to be known disjoint: sbase)
+// Order: when every key of the entity is a primary key field (the usual case), the Get/Events request
+// properties are exactly the key definitions, in declaration order — key i is request property i.
+//@   loop 0 invariant fresh(getKeys) && fresh(listKeys) && fresh(httpPath) && fresh(listHttpPath) && sbase(getKeys) != sbase(listKeys) && sbase(httpPath) != sbase(listHttpPath)
+//@   loop 0 invariant allPK(ent) ==> len(getKeys) == $iter && (forall i int {getKeys[i]} :: 0 <= i && i < $iter ==> getKeys[i] == ent.Schema.Keys[i].Def)
+//@   loop 0 invariant allPK(ent) ==> (forall i int {httpPath[i]} :: 0 <= i && i < $iter ==> httpPath[i] == ":" + ent.Schema.Keys[i].Def.Name)
+//@   assert at Join#0 path: allPK(ent) ==> len(arg0) == len(ent.Schema.Keys) && (forall i int {arg0[i]} :: 0 <= i && i < len(ent.Schema.Keys) ==> arg0[i] == ":" + ent.Schema.Keys[i].Def.Name)
+//@   assert at Join#0 order: allPK(ent) ==> len(getKeys) == len(ent.Schema.Keys) && (forall i int {getKeys[i]} :: 0 <= i && i < len(ent.Schema.Keys) ==> getKeys[i] == ent.Schema.Keys[i].Def)
 //@   loop 0 invariant len(httpPath) == len(getKeys) && len(listHttpPath) == len(listKeys)
 //@   loop 0 invariant forall i int {ent.Schema.Keys[i]} :: 0 <= i && i < len(ent.Schema.Keys) ==> ent.Schema.Keys[i] != nil && ent.Schema.Keys[i].Def != nil && ent.Schema.Keys[i].Def.Schema != nil
 //@   loop 0 invariant ent.Schema == old(ent.Schema) && ent.Schema.Keys == old(ent.Schema.Keys) && ent.name == old(ent.name)
